@@ -1,6 +1,7 @@
 CONSTANTS
   InitPrios <- P12
   SetPrios = {1}
+  SetPrioMsgs = {1, 2, 3, 4}
   Alphabet <- AlphaReAdd
   K = 1
   ReAddPinned = FALSE
